@@ -187,7 +187,7 @@ def run(ctx):
             ctx.ob(
                 "C15.tile",
                 f,
-                "{} = {}".format(name, short(d, 70)),
+                "the {} part is an untransformed slice [transformed by {}]".format(which, callee),
                 False,
                 "the {} part is transformed by `{}` between the slice and the return: header + args + footer no longer "
                 "reproduces the docstring (e.g. whenever the parameter section is indented)".format(which, callee),
